@@ -70,6 +70,10 @@ type PCond struct {
 //	fetch     FETCH [Pos [N]] Name INTO @Var[, @Var2]   (Pos: NEXT PRIOR FIRST LAST ABSOLUTE RELATIVE)
 //	dispose   DISPOSE CURSOR Name
 //	printrange PRINT CURSOR Name IS IN RANGE
+//	prepare   PREPARE Name FROM '<Body>'   (generated at the top of the program only)
+//	dyn       Form exec: EXECUTE '<Body>'; prepared: EXECUTE Name (Body repeats the prepared
+//	          statements); source: SOURCE '<file holding Body>'. The statements run in the
+//	          current block, exactly as if written in place.
 type PStmt struct {
 	ID      int       `json:"id"`
 	K       string    `json:"k"`
@@ -146,19 +150,47 @@ func RenderPCond(c *PCond) string {
 }
 
 // RenderProc renders a statement list as csvq program text.
-func RenderProc(stmts []PStmt) string {
-	var b strings.Builder
-	renderBlock(&b, stmts, 0)
+func RenderProc(stmts []PStmt) string { return RenderProcDir(stmts, "") }
+
+// RenderProcDir renders with SOURCE paths placed in dir (see ProcSourceFiles).
+func RenderProcDir(stmts []PStmt, dir string) string {
+	b := &pBuf{dir: dir}
+	renderBlock(b, stmts, 0)
 	return b.String()
 }
 
-func renderBlock(b *strings.Builder, stmts []PStmt, ind int) {
+type pBuf struct {
+	strings.Builder
+	dir string
+}
+
+// SourceFileName is the file a dyn/source statement loads.
+func SourceFileName(s *PStmt) string { return fmt.Sprintf("c15src_%d.sql", s.ID) }
+
+// ProcSourceFiles returns name -> content of every file a SOURCE statement of the program loads.
+func ProcSourceFiles(stmts []PStmt) map[string]string {
+	out := map[string]string{}
+	WalkProc(stmts, func(s *PStmt, depth int) {
+		if s.K == "dyn" && s.Form == "source" {
+			out[SourceFileName(s)] = RenderProc(s.Body)
+		}
+	})
+	return out
+}
+
+func oneLine(stmts []PStmt, dir string) string {
+	t := RenderProcDir(stmts, dir)
+	t = strings.Join(strings.Fields(t), " ")
+	return strings.ReplaceAll(t, "'", "''")
+}
+
+func renderBlock(b *pBuf, stmts []PStmt, ind int) {
 	for i := range stmts {
 		renderStmt(b, &stmts[i], ind)
 	}
 }
 
-func renderStmt(b *strings.Builder, s *PStmt, ind int) {
+func renderStmt(b *pBuf, s *PStmt, ind int) {
 	pad := strings.Repeat("  ", ind)
 	line := func(format string, args ...interface{}) {
 		b.WriteString(pad)
@@ -273,6 +305,21 @@ func renderStmt(b *strings.Builder, s *PStmt, ind int) {
 		line("CLOSE %s;", s.Name)
 	case "dispose":
 		line("DISPOSE CURSOR %s;", s.Name)
+	case "prepare":
+		line("PREPARE %s FROM '%s';", s.Name, oneLine(s.Body, b.dir))
+	case "dyn":
+		switch s.Form {
+		case "prepared":
+			line("EXECUTE %s;", s.Name)
+		case "source":
+			p := SourceFileName(s)
+			if b.dir != "" {
+				p = b.dir + "/" + p
+			}
+			line("SOURCE '%s';", p)
+		default:
+			line("EXECUTE '%s';", oneLine(s.Body, b.dir))
+		}
 	case "printrange":
 		line("PRINT CURSOR %s IS IN RANGE;", s.Name)
 	case "fetch":
@@ -417,13 +464,14 @@ const (
 )
 
 type interp struct {
-	opt     POpt
-	out     []string
-	st      PStats
-	frameID int
-	depth   int
-	retVal  PVal
-	top     *pFrame
+	opt      POpt
+	out      []string
+	st       PStats
+	frameID  int
+	depth    int
+	retVal   PVal
+	top      *pFrame
+	prepared map[string][]PStmt
 }
 
 func newInterp(opt POpt) *interp {
@@ -433,7 +481,7 @@ func newInterp(opt POpt) *interp {
 	if opt.MaxDepth == 0 {
 		opt.MaxDepth = 12
 	}
-	in := &interp{opt: opt}
+	in := &interp{opt: opt, prepared: map[string][]PStmt{}}
 	in.st.Exec = map[string]int{}
 	in.st.ShadowKinds = map[string]int{}
 	in.st.ReadAfterKinds = map[string]int{}
@@ -1139,6 +1187,30 @@ func (in *interp) execStmt(s *PStmt, f *pFrame) (pFlow, *pErr) {
 			return fNone, pdiscard("close_of_closed_cursor")
 		}
 		o.open, o.view, o.idx, o.fetched, o.fuzzy = false, nil, 0, false, false
+		return fNone, nil
+	case "prepare":
+		if _, dup := in.prepared[s.Name]; dup {
+			return fNone, pdiscard("duplicate_prepared_statement")
+		}
+		in.prepared[s.Name] = s.Body
+		return fNone, nil
+	case "dyn":
+		body := s.Body
+		if s.Form == "prepared" {
+			p, ok := in.prepared[s.Name]
+			if !ok {
+				return fNone, pdiscard("unknown_prepared_statement")
+			}
+			body = p
+		}
+		in.st.Exec["dyn:"+s.Form]++
+		for i := range body {
+			in.st.Exec["dyn_decl:"+body[i].K]++
+			flow, err := in.execStmt(&body[i], f)
+			if err != nil || flow != fNone {
+				return flow, err
+			}
+		}
 		return fNone, nil
 	case "dispose":
 		o, d := in.lookup('c', s.Name, f)
